@@ -724,6 +724,10 @@ def render_file(path, module, moddir, ctx):
                 # a method of a private type keeps a private denotation (a public one may not look into a private datatype)
                 owner_ty = f.owner.split(' for ')[-1].lstrip('&')
                 vis = '' if owner_ty in ctx['private_types'] else 'pub open '
+                # a body that reads a private field of a public type cannot be an `open` denotation ("field expression for an
+                # opaque datatype"): it stays visible inside its module only, which is where its callers are
+                if vis and reads_private_field(src, owner_ty, src[f.body_start:f.body_end]):
+                    vis = 'pub closed '
                 pre_items = '/*@DERIVED:%s@*/\n    %sspec fn spec_%s(%s) -> %s %s\n/*@ENDDERIVED@*/\n    ' % (key, vis, f.name, ptext, rettype, copy)
                 attrs += ['#[verifier::when_used_as_spec(spec_%s)]' % f.name]
                 oid = key + '/derived'
@@ -988,6 +992,29 @@ def generic_subst(text, block, fo):
     if not ren:
         return text
     return re.sub(r'\b(%s)\b' % '|'.join(re.escape(o) for o in ren), lambda mm: ren[mm.group(1)], text)
+
+
+def reads_private_field(src, owner_ty, body):
+    """does `body` contain `self.<f>` for a field f that struct `owner_ty` (declared in this file) does not declare `pub`?"""
+    m = re.search(r'\bstruct\s+%s\b[^{;(]*\{' % re.escape(owner_ty.split('<')[0]), src)
+    if not m:
+        return False
+    depth, end = 0, None
+    for j in range(m.end() - 1, len(src)):
+        if src[j] == '{':
+            depth += 1
+        elif src[j] == '}':
+            depth -= 1
+            if depth == 0:
+                end = j
+                break
+    if end is None:
+        return False
+    private = set()
+    for fm in re.finditer(r'(?m)^\s*(pub(?:\([^)]*\))?\s+)?(\w+)\s*:', src[m.end():end]):
+        if not fm.group(1):
+            private.add(fm.group(2))
+    return any(x in private for x in re.findall(r'\bself\s*\.\s*(\w+)\b(?!\s*\()', body))
 
 
 def scan_pub_fields(src):
